@@ -44,8 +44,39 @@ func obligFile(dir, name string) string {
 	return filepath.Join(dir, s+".smt2")
 }
 
+// second-chance configurations: the same solvers with other random seeds. A proof that exists
+// but is missed by the default heuristics is usually found by one of them (instability of
+// quantifier instantiation, not of the obligation).
+var retrySolvers = []solverSpec{
+	{"z3(seed=1)", func(f string, t int) []string { return []string{"z3", fmt.Sprintf("-T:%d", t), "smt.random_seed=1", f} }},
+	{"z3(seed=2)", func(f string, t int) []string { return []string{"z3", fmt.Sprintf("-T:%d", t), "smt.random_seed=2", f} }},
+	{"z3-new(seed=1)", func(f string, t int) []string {
+		return []string{"z3-new", fmt.Sprintf("-T:%d", t), "smt.random_seed=1", f}
+	}},
+	{"z3-new(seed=2)", func(f string, t int) []string {
+		return []string{"z3-new", fmt.Sprintf("-T:%d", t), "smt.random_seed=2", f}
+	}},
+}
+
 // solve races the solvers on one query. all=true runs every solver to completion.
 func solve(file string, timeoutS int, all bool) SolveResult {
+	res := solveWith(solvers, file, timeoutS, all)
+	if res.Backend == "" && res.Status != "error" && !strings.Contains(filepath.Base(file), "_smoke.") && !strings.Contains(filepath.Base(file), "_cover.") {
+		r2 := solveWith(retrySolvers, file, timeoutS, false)
+		r2.Time += res.Time
+		for k, v := range res.All {
+			r2.All[k] = v
+		}
+		if r2.Backend != "" {
+			return r2
+		}
+		res.Time = r2.Time
+		res.All = r2.All
+	}
+	return res
+}
+
+func solveWith(solvers []solverSpec, file string, timeoutS int, all bool) SolveResult {
 	ctx, cancel := context.WithCancel(context.Background())
 	defer cancel()
 	type one struct {
